@@ -200,7 +200,7 @@ def _skolemise_bytes_eq(goal):
         return goal
     a, b = goal.arg(0), goal.arg(1)
     if a.sort() != BytesS:
-        return goal
+        return _skolemise_seq_eq(goal)
 
     def parts(t):
         if t.get_id() in DEFS and t.get_id() not in INPUT_BYTES:
@@ -217,6 +217,26 @@ def _skolemise_bytes_eq(goal):
         return goal
     k = z3.Int(fresh_name('ext'))
     return z3.And(pa[0] == pb[0], z3.simplify(z3.Select(pa[1], k)) == z3.simplify(z3.Select(pb[1], k)))
+
+
+def _skolemise_seq_eq(goal):
+    """the same for immutable sequences (tuples of unknown length)"""
+    from .values import DEFS, fresh_name
+    a, b = goal.arg(0), goal.arg(1)
+    srt = a.sort()
+    if not (srt.kind() == z3.Z3_DATATYPE_SORT and srt.name().startswith('S_')):
+        return goal
+
+    def parts(t):
+        if t.get_id() in DEFS:
+            d = DEFS[t.get_id()][1].arg(1)
+            return d.arg(0), d.arg(1)
+        if z3.is_app(t) and t.decl().name().startswith('mkS_'):
+            return t.arg(0), t.arg(1)
+        return srt.accessor(0, 0)(t), srt.accessor(0, 1)(t)
+    pa, pb = parts(a), parts(b)
+    k = z3.Int(fresh_name('ext'))
+    return z3.And(pa[0] == pb[0], z3.Implies(z3.And(0 <= k, k < pa[0]), z3.simplify(z3.Select(pa[1], k)) == z3.simplify(z3.Select(pb[1], k))))
 
 
 def _prove1(assumptions, goal, timeout):
